@@ -53,8 +53,14 @@ PROPS = {
                       "properly nested (scan invariant over all chars); alternate_match (mutually recursive with matches/new, "
                       "termination by the number of '{') returns exactly amatch: some comma-separated alternative of the right-most "
                       "group, substituted, matches as a pattern in its own right (pmatch: dewey / glob / plain, false when it does not "
-                      "compile). The identity of right-most-first expansion with csh's left-to-right expansion is NOT proved here: it is "
-                      "checked exhaustively for short patterns in the thorough tier (bounded, labelled so).",
+                      "compile). theorem_expansion (lib/brace_expansion.rs, proved for all patterns and names, no axiom): for a balanced brace "
+                      "pattern p, pmatch(p, name) <==> exists e. dhas(p, e) && pmatch(e, name), where dhas is the csh expansion as a denotation "
+                      "of the text (text without '{' stands for itself; A{I}C - first '{', its depth-matching '}' - stands for A, then an "
+                      "expansion of one alternative of I split at the commas of I's own depth, empty alternatives included, then an expansion "
+                      "of C); theorem_expansion_shape: the expansion of a balanced pattern is non-empty and its strings contain no braces. The "
+                      "proof replaces an innermost group anywhere in a pattern by its alternatives (lemma_ctx, induction on the context) and "
+                      "so is independent of the order in which groups are substituted. Bounded (thorough tier): the formal definition is "
+                      "cross-checked against an operational left-to-right csh expander for all patterns up to length 10.",
         "level_note": VERUS_TRUST + "shims: rfind/find(char), split(','), format!(\"{}{}{}\"), contains(char), split_at (vstd); glob crate as "
                       "uninterpreted glob_ok/glob_match; contracts of Dewey::new/matches imported from unit dewey (verified in the same run).",
     },
